@@ -10,12 +10,13 @@ import Driver.Promise
 import Driver.Queue
 import Driver.PromiseMT
 import Driver.Emit
+import Driver.RoundTrip
 
 open Drv
 
 def dispatch (line : String) : String :=
   let ws := words line
-  let ops : List (List String → Option String) := [base64Op, mimeOp, netOp, headersOp, cookieOp, parserOp, routerOp, promiseOp, queueOp, promiseMTOp, emitOp]
+  let ops : List (List String → Option String) := [base64Op, mimeOp, netOp, headersOp, cookieOp, parserOp, routerOp, promiseOp, queueOp, promiseMTOp, emitOp, roundTripOp]
   match ops.findSome? (fun f => f ws) with
   | some r => r
   | none => "bad-op"
